@@ -18,11 +18,13 @@ SPEC = dict(
     level_note='that the parser INVERTS this layout (the round trip) is bounded only; Mod.serialize (one modification in its brackets) is an abstract method of the opaque item; ProFormaAnnotation.serialize enters the multi-chain proof as a pure function.',
     design_ref='DESIGN.md section 6, C01',
     contracts=['multi', 'serial', 'parser'],
-    targets={'parser': ['peptacular.proforma.proforma_parser:_ProFormaParser._parse_sequence_end']},
+    targets={'parser': ['peptacular.proforma.proforma_parser:_ProFormaParser._parse_sequence_end',
+                        'peptacular.proforma.proforma_parser:_ProFormaParser.parse']},
     bounded=[dict(name='C01-bounded', script='bounded/C01.py')],
     replay_finder='bounded/C01.py',
     explanation='string obligations for the chain-link tokens + grammar-directed bounded round trip',
-    proved_clauses=['parser end phase: when text remains after a chain, the link flag is False exactly after a \'+\' and True exactly after \'//\' '
+    proved_clauses=['parser driver: every chain but the last is yielded WITH a link flag (a separator was read after it) -- _ProFormaParser.parse#ensures[every-chain-but-the-last-has-a-link]',
+                    'parser end phase: when text remains after a chain, the link flag is False exactly after a \'+\' and True exactly after \'//\' '
                     '(_parse_sequence_end#ensures[link-flag-says-which-separator-was-read]; the chain links the notation denotes)',
                     'single-chain writer: field order, brackets, interval placement, residue modifications, charge / adducts exactly as the notation lays them out (unbounded)',
                     'multi-chain serializer writes "+" between chains and nothing after the last chain (all obligations, unbounded)'],
